@@ -57,6 +57,23 @@ def rule_update_before_gate(ctx, crate, rule="R-UPDATE-BEFORE-GATE"):
                       "the redraw request is issued exactly on the true edge of AtomicPosition::allow",
                       "the redraw request is not controlled by the position limiter", cfg)
         ctx.check(bool(ticks), rule, "requests-redraw", b.name, K.fn_loc(b), "a redraw is requested", "no redraw is ever requested", cfg)
+        # every call issues a request: the limiter is consulted on every path, and whenever it admits, the redraw follows
+        ctx.check(bool(al) and b.must_pass([0], {a.bb for a in al}), rule, "gate-unconditional", b.name, K.fn_loc(b),
+                  "every path through the setter consults the position limiter (a request is always issued)",
+                  "the setter can return without consulting the limiter: no redraw request is issued on that path (a stale frame can stay forever)", cfg)
+        for a in al:
+            tgt = b.term(a.bb)["t"] if b.term(a.bb)["k"] == "call" else None
+            sw = None
+            for sb, t in b.switches():
+                if operand_local(t["op"]) == a.dest["l"] or (a.dest["l"] in b.slice(t["op"], at=sb, through_calls=False).locals and b.dominates(a.bb, sb)):
+                    sw = (sb, t)
+                    break
+            if sw:
+                sb, t = sw
+                okr = bool(ticks) and b.must_pass([t["otherwise"]], {x.bb for x in ticks})
+                ctx.check(okr, rule, "redraw-whenever-allowed", b.name, a.loc(),
+                          "whenever the limiter admits, the redraw request follows on every path",
+                          "the limiter can admit (spending a token) without a redraw being requested", cfg)
         # both use the same clock reading
         for a in al:
             for t in ticks:
